@@ -342,6 +342,11 @@ class Cmp:
         self.pairs, self.neg = pairs, neg
 
     def negate(self):
+        if len(self.pairs) == 1 and self.pairs[0][1] in (0, 1) and not (
+                isinstance(self.pairs[0][0], tuple) and
+                self.pairs[0][0][0] == "symv"):
+            # one lane: not (lane == v) is lane == 1 - v
+            return Cmp([(self.pairs[0][0], 1 - self.pairs[0][1])], self.neg)
         return Cmp(self.pairs, not self.neg)
 
     def split(self, I, env, st):
@@ -701,8 +706,10 @@ class Interp:
                 if not isinstance(k, int) or k >= fr.w or k < 0:
                     raise Raise("IndexError: index out of range", t)
                 if isinstance(v, Cmp):
-                    if len(v.pairs) == 1 and not v.neg and \
-                            v.pairs[0][1] == 1:
+                    if len(v.pairs) == 1 and (
+                            (not v.neg and v.pairs[0][1] == 1) or
+                            (v.neg and v.pairs[0][1] == 0)):
+                        # lane == 1, or not (lane == 0): the lane itself
                         fr.lanes[k] = v.pairs[0][0]
                     else:
                         raise Unsupported("bit store of a comparison")
